@@ -57,6 +57,15 @@ def obligations(tier, ctx):
                               call=f"H.nego_sel({list(sup)!r}, {pref}, 0, a, 0, {bool(distractor)}, {gl}, T)",
                               real=f"H.nego_sel_real({list(sup)!r}, {pref}, 0, a, 0, {bool(distractor)}, {gl}, T)",
                               backend="P", timeout=300, family="real+invented dates: answer by symbolic index, symbolic schedule"))
+    from symcheck import consts
+    nsz = len(consts.size_cases(70000, extra=(4096, 8192, 65536, 131072)))
+    for form in range(5):
+        obs.append(Ob(name=f"long_f{form}", params=[("k", "int")], pre=[f"0 <= k < {nsz}"], call=f"H.nego_long(k, {form})", backend="P", timeout=600,
+                      family="size: version strings of c-1, c, c+1 extra characters (c: integer constants of the source and environment sizes)"))
+    clim = 110 if tier == "quick" else 1100
+    nc = len(consts.size_cases(clim))
+    obs.append(Ob(name="many_supported", params=[("k", "int"), ("aw", "int"), ("pw", "int")], pre=[f"0 <= k < {nc}", "0 <= aw <= 3", "-1 <= pw <= 3"] + (["aw in (1, 3)", "pw in (-1, 2)"] if tier == "quick" else []),
+                  call=f"H.nego_many(k, aw, pw, {clim})", backend="P", timeout=900, family="count: supported lists of c-1, c, c+1 entries"))
     return obs
 
 
